@@ -1,5 +1,5 @@
 import io
-from impl import op, hx, unhx, err
+from impl import op, hx, unhx, err, mkfile
 import impl_bf3 as b3
 import impl_bec2 as b2
 from bec2format.bf3file import Bf3File, Bf3Component, conf_dict_to_tlv, MAX_TLVBLOCK_SIZE
@@ -51,7 +51,7 @@ def tlv(d):
 @op("setcfg")
 def setcfg(cs, d, ex):
     try:
-        f = Bf3File({}, b3.parse_comps(cs))
+        f = mkfile({}, b3.parse_comps(cs))
         f.set_config(parse_dict(d), as_iterable(parse_blocks_list(ex)))
         return "ok " + b3.show_comps(f.components)
     except Exception as e:
@@ -356,7 +356,12 @@ def prop_c12cfg(d):
 @op("prop.c11")
 def prop_c11(cm, cs, bs, ops):
     """history independence, evaluated after every operation against an abstract state"""
-    f = Bec2File(Bf3File(b3.parse_comments(cm), b3.parse_comps(cs)), b2.parse_blocks(bs), bytes(range(16)))
+    # objects built with the constructors' defaults (as the application notes do) beside the one the history works on: whatever
+    # happens to that one, these stay as new.  The file of the history is itself built through the defaults where it can be.
+    twin, twin2 = Bf3File(), Bec2File(Bf3File())
+    cmts, cps, blks = b3.parse_comments(cm), b3.parse_comps(cs), b2.parse_blocks(bs)
+    base = Bf3File() if not cmts and not cps else (Bf3File(components=cps) if not cmts else Bf3File(cmts, cps))
+    f = Bec2File(base, blks, bytes(range(16))) if blks else Bec2File(base, session_key=bytes(range(16)))
     is_cfg = lambda c: c.description.get(0xC3) == b"\x03"
     others = [c for c in f.bf3file.components if not is_cfg(c)]          # abstract: non-config components in order
     last_cfg = None
@@ -438,4 +443,11 @@ def prop_c11(cm, cs, bs, ops):
             return f"FAIL step {n}: other components changed or reordered"
         if dict(f.bf3file.comments) != comments:
             return f"FAIL step {n}: comments {dict(f.bf3file.comments)!r:.150} instead of {comments!r:.150}"
+        if twin.comments or twin.components or twin2.auth_blocks or twin2.bf3file.comments or twin2.bf3file.components:
+            return (f"FAIL step {n}: ANOTHER file object, built with the constructor defaults before the history began and never "
+                    f"touched, now has comments {dict(twin.comments)!r:.120} / {len(twin.components)} components / "
+                    f"{len(twin2.auth_blocks)} auth blocks")
+    fresh = Bf3File()
+    if fresh.comments or fresh.components:
+        return f"FAIL a new Bf3File() starts with comments {dict(fresh.comments)!r:.120} / {len(fresh.components)} components after this history"
     return "ok"
